@@ -390,4 +390,5 @@ func runC03(r *Run, rng *Rng, thorough bool) {
 		}
 	}
 	extSignRoundTrip(r, rng, map[bool]int{false: 300, true: 6000}[thorough])
+	signThenSignElsewhere(r, rng, map[bool]int{false: 150, true: 3000}[thorough])
 }
